@@ -1032,6 +1032,29 @@ def py_alias_cases(ctx):
     return [(l, "alias-seq") for l in out]
 
 
+FETCH_FLOAT = re.compile(r"p\.f_[au]f(16|32|64) ")
+
+
+def canon_fetch_float(line, ans):
+    """A fetched float is observed through struct.pack, which does not keep every NaN payload (a half NaN comes back as
+    7e00): a NaN pattern is passed through the interpreter's struct once more — on the implementation's, the model's and
+    the reference's answer alike (payloads are compared on the byte-level requests)."""
+    m = FETCH_FLOAT.match(line)
+    if not m or ans is None or not ans.startswith("ok "):
+        return ans
+    t = ans.split(" ")
+    if t[1] == "-":
+        return ans
+    w = int(m.group(1))
+    e, mant = {16: (5, 10), 32: (8, 23), 64: (11, 52)}[w]
+    raw = unhx(t[1])
+    v = le(raw)
+    is_nan = (v >> mant) & ((1 << e) - 1) == (1 << e) - 1 and v & ((1 << mant) - 1)
+    if is_nan and len(raw) == w // 8:       # a NaN is written the way the interpreter's struct carries it (idempotent)
+        t[1] = hx(struct.pack(FLOAT_FMT[w], struct.unpack(FLOAT_FMT[w], raw)[0]))
+    return " ".join(t)
+
+
 def py_model_line(line):
     """The float wrappers are `struct.pack` (an external function, parameter of the model) followed by add_*_bytes, and
     fetch_*_bytes followed by `struct.unpack`: the model is asked for the byte-level operation."""
@@ -1497,10 +1520,11 @@ def run_py(ctx, drv):
     ncontract = nfail = 0
     history = []        # the float-wrapper requests run so far in this interpreter (their outcome may depend on the order)
     for line, st, m in zip(lines, streams, model):
-        a = impl.answer(line)
+        a = canon_fetch_float(line, impl.answer(line))
+        m = canon_fetch_float(line, m)
         if st in SEQ_STREAMS:
             history.append(line)
-        o = orc.answer(line)
+        o = canon_fetch_float(line, orc.answer(line))
         ctx.case(line, o is not None and nontrivial(line))
         ctx.count("py:" + op_of(line))
         if m is not None:
@@ -1733,7 +1757,7 @@ def replay(ctx, path):
         impl = PyImpl(ctx)
         for h in rp.get("history", []):      # state carried between calls in one interpreter
             impl.answer(h)
-        got = impl.answer(line)
+        got, exp = canon_fetch_float(line, impl.answer(line)), canon_fetch_float(line, exp)
     else:
         jobs = [j for j in (build_cpp(ctx) if target.startswith("cpp") else build_c(ctx)) if j[0] == target]
         if not jobs:       # a thorough-only build: build it the thorough way
